@@ -139,6 +139,12 @@ func typedValue(schema *openapi3.Schema, value any) any {
 		if schema.Type.Is(openapi3.TypeInteger) && v == math.Trunc(v) {
 			return int64(v)
 		}
+
+		// a node described by oneOf / anyOf: the number is an integer when the
+		// branches accept integers and no other kind of number
+		if v == math.Trunc(v) && branchesAcceptIntegersOnly(schema) {
+			return int64(v)
+		}
 	case []any:
 		if schema.Items == nil || schema.Items.Value == nil {
 			return value
@@ -163,4 +169,21 @@ func typedValue(schema *openapi3.Schema, value any) any {
 	}
 
 	return value
+}
+
+func branchesAcceptIntegersOnly(schema *openapi3.Schema) bool {
+	integers, numbers := false, false
+
+	for _, branches := range []openapi3.SchemaRefs{schema.OneOf, schema.AnyOf} {
+		for _, branch := range branches {
+			if branch == nil || branch.Value == nil {
+				continue
+			}
+
+			integers = integers || branch.Value.Type.Is(openapi3.TypeInteger)
+			numbers = numbers || branch.Value.Type.Is(openapi3.TypeNumber)
+		}
+	}
+
+	return integers && !numbers
 }
